@@ -1,0 +1,54 @@
+//! Verification hooks (feature `verif-hooks`, off by default).
+//!
+//! An event sink the verification harness can install to observe, and to
+//! pause at, the life-cycle points of request workers and of the message
+//! loop. Without an installed handler every call is a no-op.
+
+use std::sync::OnceLock;
+
+use lsp_server::{Request, RequestId};
+
+use super::Router;
+
+#[derive(Debug, Clone)]
+pub enum Event {
+    /// worker thread started, server not touched yet
+    Started(RequestId),
+    /// result computed, response not sent yet
+    Computed(RequestId),
+    /// worker finished and dropped its `Router` clone; `true` if it is unwinding from a panic
+    Exited(RequestId, bool),
+    /// the loop thread handled a notification (method)
+    NotificationApplied(String),
+    /// the loop thread caught a panic while handling a message
+    MessagePanicked(String),
+}
+
+static HOOK: OnceLock<Box<dyn Fn(&Event) + Send + Sync>> = OnceLock::new();
+
+pub fn set_hook(hook: Box<dyn Fn(&Event) + Send + Sync>) {
+    let _ = HOOK.set(hook);
+}
+
+pub fn emit(event: Event) {
+    if let Some(hook) = HOOK.get() {
+        hook(&event);
+    }
+}
+
+struct ExitGuard(RequestId);
+
+impl Drop for ExitGuard {
+    fn drop(&mut self) {
+        emit(Event::Exited(self.0.clone(), std::thread::panicking()));
+    }
+}
+
+pub fn run_request(router: Router, request: Request) -> bool {
+    let id = request.id.clone();
+    emit(Event::Started(id.clone()));
+    // locals drop in reverse order: the router clone goes first, then the guard fires
+    let _guard = ExitGuard(id);
+    let router = router;
+    router.on_request(request)
+}
